@@ -238,6 +238,7 @@ func WriteFileAt(path string, data []byte, t time.Time) {
 // Violation is one failing case.
 type Violation struct {
 	Property   string      `json:"property"`
+	Test       string      `json:"test,omitempty"`       // Go test function that found it (the replay runs that part only)
 	Classifier string      `json:"classifier,omitempty"` // names the known-finding class it belongs to, if any
 	What       string      `json:"what"`
 	Replay     interface{} `json:"replay"`
@@ -317,7 +318,7 @@ func (r *Report) Violate(classifier, what string, replay interface{}) {
 	if n >= 20 {
 		return
 	}
-	r.Violations = append(r.Violations, Violation{Property: r.Property, Classifier: classifier, What: what, Replay: replay})
+	r.Violations = append(r.Violations, Violation{Property: r.Property, Test: os.Getenv("VERIF_TEST"), Classifier: classifier, What: what, Replay: replay})
 }
 
 func (r *Report) NViolations() int {
